@@ -751,7 +751,9 @@ def flatten(self, *dims, **kwargs):
         return b.flatten(dims, insert=insert)
 
     # Create a new flattened axis
-    newaxis = MultiAxis(*[ax for ax in self.axes if ax.name in dims])
+    # (copies: the grouped axis caches its name and tuple labels, which would go stale
+    # if the member axes remained shared with - and were later edited through - this array)
+    newaxis = MultiAxis(*[ax.copy() for ax in self.axes if ax.name in dims])
 
     # New axes
     newaxes = [ax for ax in self.axes if ax.name not in dims]
